@@ -313,6 +313,86 @@ def r5_helpers(ctx):
                 )
 
 
+def r7_cache_is_consulted_through_the_helpers(ctx):
+    """(a) The cache directory is touched only by the three helpers; elsewhere `self._cache_directory` appears only in
+    `is None` / `is not None` tests.  A command that looks into the directory itself (e.g. "a cached name exists, so the
+    object exists") makes its result depend on what the cache happens to hold.
+    (b) The helpers keep no memory of the directory: their only instance state is `_cache_directory` (and a lock).  A
+    remembered "this sub-directory exists" is wrong as soon as another process / an interrupted run removed it.
+    (c) No helper re-acquires a non-reentrant lock it is called under."""
+    corpus = ctx.corpus
+    cls = repo_cls(corpus)
+    helpers = {'_store_cached', '_get_cached', '_delete_cached'}
+    n = 0
+    for m in cls.methods.values():
+        for f in [m] + list(m.all_nested()):
+            for a in walk_local(f.node):
+                if not (isinstance(a, ast.Attribute) and a.attr == '_cache_directory' and isinstance(a.value, ast.Name) and a.value.id == 'self'):
+                    continue
+                n += 1
+                if m.name in helpers or m.name == '__init__':
+                    continue
+                par = getattr(a, '_parent', None)
+                ok = isinstance(par, ast.Compare) and len(par.ops) == 1 and isinstance(par.ops[0], (ast.Is, ast.IsNot)) and isinstance(par.comparators[0], ast.Constant) and par.comparators[0].value is None
+                ok = ok or (isinstance(a.ctx, ast.Store))
+                ctx.analysed(f)
+                ctx.check(
+                    ok,
+                    'C18.R4',
+                    f'{func_label(f)}|cache-directory-only-through-helpers',
+                    loc(f, a),
+                    f'{f.name}: only tests whether the cache is enabled',
+                    f'{f.name}: uses the cache directory itself (`{src(enclosing_stmt(a), 80)}`), outside _get_cached / _store_cached / _delete_cached: what the command does now depends on what the cache happens to contain',
+                )
+    ctx.floor('C18.R4', 'uses of self._cache_directory', n, 5)
+    locks = set()
+    init = cls.methods.get('__init__')
+    if init is not None:
+        for st in walk_local(init.node):
+            if isinstance(st, ast.Assign) and isinstance(st.value, ast.Call) and (dotted(st.value.func) or '').rsplit('.', 1)[-1] in ('Lock', 'Semaphore', 'BoundedSemaphore'):
+                locks |= {t.attr for t in st.targets if isinstance(t, ast.Attribute)}
+    for nm in sorted(helpers):
+        f = cls.methods.get(nm)
+        if f is None:
+            continue
+        attrs = sorted({a.attr for a in ast.walk(f.node) if isinstance(a, ast.Attribute) and isinstance(a.value, ast.Name) and a.value.id == 'self'} - {'_cache_directory'} - locks)
+        ctx.check(
+            not attrs,
+            'C18.R5',
+            f'{func_label(f)}|helper-keeps-no-memory',
+            loc(f, f.node),
+            f'{nm}: consults the file system only (no instance state besides the directory)',
+            f'{nm}: keeps / reads instance state `self.{attrs[0] if attrs else ""}` about the cache: what it remembers is wrong once another process, another Repository object or an interrupted run changed the directory '
+            '(e.g. a sub-directory removed after it was "seen" makes the store fail, only with the cache on)',
+        )
+    # (c) re-acquisition of a non-reentrant lock
+    def holds(fn_node, lock):
+        return [w for w in ast.walk(fn_node) if isinstance(w, (ast.With, ast.AsyncWith)) and any(isinstance(i.context_expr, ast.Attribute) and i.context_expr.attr == lock and isinstance(i.context_expr.value, ast.Name) and i.context_expr.value.id == 'self' for i in w.items)]
+
+    def acquires(mname, lock, depth=0, seen=()):
+        m = cls.methods.get(mname)
+        if m is None or depth > 3 or mname in seen:
+            return False
+        if holds(m.node, lock):
+            return True
+        return any(acquires(c.func.attr, lock, depth + 1, seen + (mname,)) for c in ast.walk(m.node) if isinstance(c, ast.Call) and isinstance(c.func, ast.Attribute) and isinstance(c.func.value, ast.Name) and c.func.value.id == 'self')
+
+    for lock in sorted(locks):
+        for m in cls.methods.values():
+            for w in holds(m.node, lock):
+                for c in [c for st in w.body for c in ast.walk(st) if isinstance(c, ast.Call) and isinstance(c.func, ast.Attribute) and isinstance(c.func.value, ast.Name) and c.func.value.id == 'self']:
+                    bad = acquires(c.func.attr, lock)
+                    nested_with = any(w2 is not w for st in w.body for w2 in holds(st, lock))
+                    ctx.check(
+                        not bad and not nested_with,
+                        'C18.R5',
+                        f'{func_label(m)}|lock-not-reacquired:{lock}',
+                        loc(m, c),
+                        f'{m.name}: `self.{c.func.attr}()` called under self.{lock} does not take that lock again',
+                        f'{m.name}: `self.{c.func.attr}()` is called while self.{lock} (a non-reentrant lock) is held and takes it again: the thread blocks on itself - the command hangs, only with the cache on',
+                    )
+
+
 def run(ctx):
     from ..report import Relabel
     from .c02 import r3_skip_whitelist
@@ -325,3 +405,4 @@ def run(ctx):
     r3_never_widens(ctx)
     r4_disabled_untouched(ctx)
     r5_helpers(ctx)
+    r7_cache_is_consulted_through_the_helpers(ctx)
